@@ -799,3 +799,118 @@ def rtti_suite(tier, seed):
         res['wall'] = time.time() - t0
         return res
     return cached('rtti', tier, seed, compute)
+
+
+# --------------------------------------------------------------------------- C15: unregistered classes
+
+def unknown_suite(tier, seed):
+    def compute():
+        t0 = time.time()
+        binp, blog = corelib.h1_binary(); mdl, mlog = corelib.model_binary()
+        res = {'build': {'h1': bool(binp), 'model': bool(mdl), 'h1_log': '' if binp else blog[-1500:], 'model_log': '' if mdl else mlog[-1500:]},
+               'cases': [], 'dist': {}, 'n': 0}
+        if not binp or not mdl:
+            return res
+        rng = vlib.Rng(seed * 49979687 + 15)
+        n = 120 if tier == 'quick' else 1200
+        pols = ['chk', 'thr', 'chk', 'proj', 'chk2', 'vec', 'hash']
+        text = []; queries = []; cases = []
+        for i in range(n):
+            pol = pols[i % len(pols)]
+            reg = gen_registry(rng, shapes=shapes_of(pol), max_classes=7, max_methods=3, max_arity=3)
+            nn = reg['n']
+            # ---- update time: leave one class out, at a chosen place
+            place = rng.choice(['base', 'method', 'def'])
+            cands = set()
+            if place == 'base':
+                for c, a, bases in reg['records']: cands.update(b for b in bases if b != c)
+            elif place == 'method':
+                for m in reg['methods']: cands.update(m['vp'])
+            else:
+                for m in reg['methods']:
+                    for d in m['defs']: cands.update(d['vp'])
+            if cands:
+                x = rng.choice(sorted(cands))
+                r2 = dict(reg); r2['records'] = [r for r in reg['records'] if r[0] != x]
+                name = 'u%d.loo' % i
+                text.append(case_text(name, r2, [pol])); queries.append((name, query_text(name, r2)))
+                used = set()
+                for c, a, bases in r2['records']: used.update(bases)
+                for m in r2['methods']:
+                    used.update(m['vp'])
+                    for d in m['defs']: used.update(d['vp'])
+                registered = set(r[0] for r in r2['records'])
+                cases.append({'name': name, 'kind': 'leave-one-out/' + place, 'pol': pol, 'reg': r2, 'missing': x,
+                              'unregistered_used': sorted(used - registered)})
+            # ---- call time (checked policies only): an unregistered dynamic class at each virtual position
+            if pol in CHECKED:
+                ghost = nn + 3
+                lines = ['case u%d.call' % i, 'ids small'] + case_lines(reg, pol)
+                slots_ok = slot_assignment(reg, shapes_of(pol))
+                anc = ancestors({int(a): b for a, b in reg['parents'].items()}, nn)
+                expect = {}
+                for mi, m in enumerate(reg['methods']):
+                    if not slots_ok[mi]: continue
+                    ok_ids = []
+                    for p in m['vp']:
+                        ds = [d for d in range(1, nn + 1) if p in anc[d]]
+                        ok_ids.append(rng.choice(ds))
+                    for k in range(len(m['vp'])):
+                        ids = list(ok_ids); ids[k] = ghost
+                        if rng.chance(1, 3) and k + 1 < len(ids): ids[k + 1] = ghost + 1
+                        lines.append('@%s callx %d %s' % (pol, mi, ' '.join(map(str, ids))))
+                        expect['callx %d %s' % (mi, ' '.join(map(str, ids)))] = 'unknown_class %d' % ghost
+                lines.append('@%s mkvptr %d' % (pol, ghost)); expect['mkvptr %d' % ghost] = 'unknown_class %d' % ghost
+                lines.append('@%s probe %d' % (pol, ghost)); expect['probe %d' % ghost] = 'unknown_class %d' % ghost
+                some = rng.range(1, nn)
+                lines.append('@%s mkvptr %d' % (pol, some)); expect['mkvptr %d' % some] = 'ok'
+                lines.append('end')
+                text.append('\n'.join(lines) + '\n')
+                cases.append({'name': 'u%d.call' % i, 'kind': 'call-time', 'pol': pol, 'reg': reg, 'expect': expect})
+        impl = {}; model = {}
+        for b0 in range(0, len(text), 300):
+            impl.update(run_h1(binp, ''.join(text[b0:b0 + 300]), timeout=1200))
+        for b0 in range(0, len(queries), 400):
+            model.update(run_model(mdl, queries[b0:b0 + 400], timeout=1200))
+        for c in cases:
+            ir = impl.get(c['name'], {'lines': [], 'crashed': True, 'stderr': 'no output'})
+            fails = []; ndiff = 0
+            lines = split_by_policy(ir['lines']).get(c['pol'], [])
+            if ir['crashed']:
+                fails.append('the library crashed or aborted instead of reporting the unknown class: %s' % ir['stderr'][-300:])
+            elif c['kind'].startswith('leave-one-out'):
+                iobs = parse_obs(lines); mobs = parse_obs(model.get(c['name'], []))
+                up = iobs.get('update', '')
+                if not c['unregistered_used']:
+                    pass          # the class was not used after all: a well-formed registry
+                else:
+                    m = re.match(r'error unknown_class (-?\d+)$', up)
+                    if not m:
+                        fails.append('class %d is not registered but is used (%s); update says "%s" instead of reporting an unknown class' % (c['missing'], c['kind'], up))
+                    elif int(m.group(1)) not in c['unregistered_used']:
+                        fails.append('update reports unknown class %s, which is not an unregistered class in use (those are %s)' % (m.group(1), c['unregistered_used']))
+                    if any(k.startswith(('disp ', 'call ', 'image')) for k in iobs):
+                        fails.append('tables were installed / calls made although update reported an error')
+                if mobs.get('update') != up:
+                    ndiff = 1
+            else:
+                got = {}
+                for l in lines:
+                    mm = re.match(r'(callx \d+(?: \d+)*|mkvptr \d+|probe \d+) = (.*)$', l)
+                    if mm: got[mm.group(1)] = mm.group(2)
+                for k, want in c['expect'].items():
+                    g = got.get(k)
+                    if g is None:
+                        fails.append('no observation for %s' % k)
+                    elif want == 'ok':
+                        if g.strip() != 'ok': fails.append('%s on a registered class: %s' % (k, g))
+                    elif not re.search(r'(error|threw) (ALT )?%s$' % want, g.strip()):
+                        fails.append('%s with an unregistered dynamic class: got "%s", expected an unknown-class error carrying id %s' % (k, g, want.split()[-1]))
+            res['cases'].append({'name': c['name'], 'reg': c['reg'], 'orders': 1, 'hash': reg_hash(c['reg']) + c['kind'], 'nontrivial': True,
+                                 'fails': fails[:5], 'ndiffs': ndiff, 'failing_variant': None, 'policy': c['pol'],
+                                 'history': None})
+            res['dist'][c['kind'] + ' ' + c['pol']] = res['dist'].get(c['kind'] + ' ' + c['pol'], 0) + 1
+        res['n'] = len(cases)
+        res['wall'] = time.time() - t0
+        return res
+    return cached('unknown', tier, seed, compute)
